@@ -11,7 +11,7 @@
                         the model of encoding/json with the custom MarshalJSON hooks, then the JSON-level redaction of
                         the serialized text: RedactDumpJSON)
      dump_log e         the storage regions the redactor writes while producing it *)
-From Coq Require Import List String Bool ZArith NArith.
+From Coq Require Import List String Bool ZArith NArith Ascii.
 From MV Require Import Lib.GoJson Lib.GoJsonFacts Lib.CfgStore Gen.CfgTypes Model.Redact Proofs.Redact.
 Import ListNotations.
 Open Scope string_scope.
@@ -114,6 +114,34 @@ Example c20_extend_json_example :
   key_strings j = ["K1"; "K2"; "K3"; "K4"; ""] /\
   key_strings (blank_json_keys j) = [placeholder; placeholder; placeholder; placeholder; ""].
 Proof. split; vm_compute; reflexivity. Qed.
+
+(* THE TEXT, WHATEVER ITS SPELLING.  RedactDumpJSON is given a TEXT; the same member can be spelled in many ways in it
+   (private\u005fkey, \u0050rivate_key, Private\u005FKey ... are the member private_key to every JSON decoder, and the tunnel_agent
+   parser reads its TLS context from it).  The redaction is specified on the value the text DECODES to: sjson is a document
+   with member names and strings as spelled (literal bodies), unescape the meaning of a literal (validated against
+   encoding/json on every run through the spelled_case shards), sdecode the decoded document, redact_text its redaction.
+   For EVERY text that decodes at all, no string member whose decoded name is private_key (any case) survives ... *)
+Theorem c20_redact_text_no_leak : forall s j, redact_text s = Some j -> Forall ok_secret (key_strings j).
+Proof. exact redact_text_no_leak. Qed.
+Print Assumptions c20_redact_text_no_leak.
+(* ... the redaction is defined whenever the text decodes, and a string member is blanked however its name and its
+   value are spelled: *)
+Theorem c20_redact_text_defined : forall s j0, sdecode s = Some j0 -> redact_text s = Some (blank_json_keys j0).
+Proof. exact redact_text_defined. Qed.
+Theorem c20_spelled_member_blanked : forall k lit rest k' v jr,
+  unescape k = Some k' -> key_eq k' tls_key_json = true -> unescape lit = Some v ->
+  sdecode (SObj rest) = Some (JObj jr) ->
+  exists jr', redact_text (SObj ((k, SStr lit) :: rest)) = Some (JObj ((k', JStr (if String.eqb v "" then v else placeholder)) :: jr')).
+Proof. exact spelled_member_blanked. Qed.
+(* (d) a textual pre-filter (decode and redact only when the lower-cased text contains the name) is refuted: w_spelled spells
+   its two members with escapes, its text does not contain the name, every decoder reads two private keys from it, the
+   redaction blanks both, the pre-filtered variant returns both *)
+Theorem c20_no_leak_refuted_with_text_prefilter :
+  contains tls_key_json (lower (sprint w_spelled)) = false /\
+  option_map key_strings (sdecode w_spelled) = Some ["KEY-ESC"; "KEY-2"] /\
+  option_map key_strings (redact_text w_spelled) = Some [placeholder; placeholder] /\
+  option_map (fun j => leaked (key_strings j)) (redact_text_prefiltered w_spelled) = Some ["KEY-ESC"; "KEY-2"].
+Proof. exact spelled_witness. Qed.
 
 (* non-vacuity: a configuration with a key at the cluster-manager, filter-chain (both shapes), listener-map, cluster
    and extension positions; without redaction the keys are visible, the dump shows none, the redactor does write
